@@ -101,7 +101,14 @@ type stateEntry struct {
 	nAcked    int   // acknowledged operations (a prefix of the history)
 	ks        []int64
 	Phase     string
-	wholeRows map[blob.Ref]bool // whole-file rows durably written
+	wholeRows map[blob.Ref]bool // whole-file rows durably written (derived states: whole files served before the snapshot)
+	// Derived: not a crash state of the history but the durable state reached from one by a
+	// restart without recovery, the stage-2 removes and the client uploading everything again
+	// (stage "resumed" of the walk in mode none); restarted in the recovery modes only.
+	Derived bool
+	DupZips bool   // large holds two zips for one (whole file, part index)
+	From    string // derived: phase of the crash state it descends from
+	key     string
 }
 
 type caseCtx struct {
@@ -122,6 +129,8 @@ type caseCtx struct {
 	states   map[string]*stateEntry
 	order    []*stateEntry
 	failed   bool
+	derivedM map[string]*stateEntry
+	derived  []*stateEntry // the selected derived states, in a seed-determined order
 }
 
 type execResult struct {
@@ -304,6 +313,18 @@ func (in *instance) guardRunaway(w *world) *atomic.Int64 {
 		}
 	}
 	return &runaway
+}
+
+// sameContentFiles: two files of the case have identical contents (different names).
+func (w *world) sameContentFiles() bool {
+	seen := map[blob.Ref]bool{}
+	for _, f := range w.Files {
+		if seen[f.WholeRef] {
+			return true
+		}
+		seen[f.WholeRef] = true
+	}
+	return false
 }
 
 func (w *world) maxChunks() int {
@@ -562,6 +583,30 @@ func (c *caseCtx) runA() {
 	}
 	for _, f := range w.Files {
 		r.Note("upload_order", w.orderOf(f))
+		if f.Short > 0 {
+			// hand-written schema with a part shorter than its blob
+			shape := strings.TrimPrefix(f.Spec.Content, "parts:")
+			r.Note("part_shape", shape)
+			var got int64
+			nz := 0
+			for _, zr := range res.lw.largeRefs() {
+				if zi := st.zipOf(zr); zi.parsed && zi.Whole == f.WholeRef {
+					got += int64(len(zi.First))
+					nz++
+				}
+			}
+			switch {
+			case nz == 0:
+				r.Note("short_part_file", "stays-loose")
+			case got < int64(len(f.Content)):
+				r.Note("short_part_file", "first-zips-only")
+			default:
+				r.Note("short_part_file", "packed")
+			}
+			if w.Spec.MaxZip > 0 {
+				r.Note("short_part_file", "with-forced-max-zip")
+			}
+		}
 	}
 	if w.Spec.Interleave != "" {
 		r.Note("upload_order", "interleave:"+w.Spec.Interleave)
@@ -707,15 +752,24 @@ func seedOf(parts ...any) int64 {
 }
 
 // auditState restarts one crash state in one recovery variant and walks it through the stages.
-func (c *caseCtx) auditState(st *stateEntry, variant string, deep bool) {
+//
+// direct: the walk goes from the first restart straight to the re-upload (no removes, no second
+// restart): the client simply carries on after the crash.
+func (c *caseCtx) auditState(st *stateEntry, variant string, deep, direct bool) {
 	r, w := c.r, c.w
 	wipe := strings.HasPrefix(variant, "zips-alone")
 	recovering := variant != "none"
 	s := &site{r: r, w: w, Variant: variant, Phase: st.Phase, Stage: "restart", K: st.ks[0]}
 	s.zc = &c.zc
 	s.extra = func() map[string]any {
-		return map[string]any{"crash_points_with_this_state": st.ks, "acked_ops": st.nAcked, "present_blobs": len(st.present), "uncertain_blobs": len(st.unc), "removed_blobs": len(st.removed),
+		m := map[string]any{"crash_points_with_this_state": st.ks, "acked_ops": st.nAcked, "present_blobs": len(st.present), "uncertain_blobs": len(st.unc), "removed_blobs": len(st.removed),
 			"small_blobs": len(st.sn.Small), "zips": len(st.sn.Large), "meta_rows": len(st.sn.Meta)}
+		if st.Derived {
+			m["derived_state"] = "the crash state was restarted without recovery, a few blobs were removed, the store was restarted again and the client uploaded everything again; the resulting durable state is restarted here"
+			m["crash_phase"] = st.From
+			m["duplicate_zips"] = st.DupZips
+		}
+		return m
 	}
 	rng := rand.New(rand.NewSource(seedOf(w.Spec.Seed, st.ks[0], variant)))
 	lw, err := st.sn.materialise(w, &c.zp, wipe)
@@ -740,7 +794,18 @@ func (c *caseCtx) auditState(st *stateEntry, variant string, deep bool) {
 		return
 	}
 	r.Note("recovery", variant)
-	r.Distinct(fmt.Sprintf("%s/%d/%s", w.Spec.ID, st.ks[0], variant))
+	if direct {
+		r.Distinct(fmt.Sprintf("%s/%d/%s/direct", w.Spec.ID, st.ks[0], variant))
+	} else if st.Derived {
+		r.Distinct(fmt.Sprintf("%s/%d/%s/resumed", w.Spec.ID, st.ks[0], variant))
+		r.Count("derived_state_restarts", 1)
+		r.Note("derived_recovery", variant)
+		if st.DupZips {
+			r.Note("derived_recovery_with_duplicate_zips", variant)
+		}
+	} else {
+		r.Distinct(fmt.Sprintf("%s/%d/%s", w.Spec.ID, st.ks[0], variant))
+	}
 	contained, nz := s.zipAudit()
 	if nz > 0 {
 		r.Note("recovery_with_zips", variant)
@@ -778,103 +843,116 @@ func (c *caseCtx) auditState(st *stateEntry, variant string, deep bool) {
 		}
 	}
 
-	// stage 2: removes of loose and packed blobs
-	s.Stage = "after-remove"
-	var loose, packed []sto.Blob
-	for _, b := range w.Universe {
-		if _, ok := ck.Present[b.Ref]; !ok || ck.Uncertain[b.Ref] {
-			continue
-		}
-		if contained[b.Ref] {
-			packed = append(packed, b)
-		} else {
-			loose = append(loose, b)
-		}
-	}
-	pick := func(from []sto.Blob, n int) []sto.Blob {
-		rng.Shuffle(len(from), func(i, j int) { from[i], from[j] = from[j], from[i] })
-		if len(from) > n {
-			from = from[:n]
-		}
-		return from
-	}
-	loose = pick(loose, 2)
-	if zrefs := lw.largeRefs(); len(zrefs) > 0 && rng.Intn(3) == 0 {
-		// every blob that one zip contains
-		zi := s.zipOf(zrefs[rng.Intn(len(zrefs))])
-		var all []sto.Blob
-		for _, b := range packed {
-			if zi.Contained[b.Ref] {
-				all = append(all, b)
-			}
-		}
-		if len(all) > 0 && len(all) == len(zi.Contained) {
-			if rng.Intn(2) == 0 {
-				// ... but one, which must stay served
-				all = all[:len(all)-1]
-				r.Note("removes", "all-but-one-blob-of-a-zip")
-			} else {
-				r.Note("removes", "all-blobs-of-a-zip")
-			}
-		}
-		packed = all
+	var ck3 *sto.Checker
+	var removed3 map[blob.Ref]bool
+	if direct {
+		ck3, removed3 = ck, removed
+		r.Count("direct_resume_walks", 1)
 	} else {
-		packed = pick(packed, 3)
-	}
-	inZip := map[blob.Ref]bool{}
-	if len(loose) > 0 {
-		ck.Remove(loose)
-		for _, b := range loose {
-			removed[b.Ref] = true
-		}
-		r.Note("removes", "loose")
-	}
-	if len(packed) > 0 {
-		ck.Remove(packed)
-		for _, b := range packed {
-			removed[b.Ref] = true
-			inZip[b.Ref] = true
-		}
-		r.Note("removes", "packed")
-	}
-	s.clientAudit(ck, rng, st.wholeRows)
-	inst.close()
-	if ck.Dead {
-		return
-	}
-
-	// stage 3: another restart in the same mode
-	s.Stage = "re-restart"
-	inst = c.reopen(s, lw)
-	if inst == nil {
-		return
-	}
-	present3, unc3 := copyPresent(ck.Present), copySet(ck.Uncertain)
-	removed3 := copySet(removed)
-	tolerated := map[blob.Ref]bool{}
-	if recovering {
-		for ref := range liveResurrect {
-			if _, p := present3[ref]; !p {
-				unc3[ref] = true
-				delete(removed3, ref)
+		// stage 2: removes of loose and packed blobs
+		s.Stage = "after-remove"
+		var loose, packed []sto.Blob
+		for _, b := range w.Universe {
+			if _, ok := ck.Present[b.Ref]; !ok || ck.Uncertain[b.Ref] {
+				continue
+			}
+			if contained[b.Ref] {
+				packed = append(packed, b)
+			} else {
+				loose = append(loose, b)
 			}
 		}
-		// removals are not recorded in the zips: a recovery may bring removed packed blobs back
-		for ref := range inZip {
-			if _, p := present3[ref]; !p {
-				unc3[ref] = true
-				tolerated[ref] = true
-				delete(removed3, ref)
+		pick := func(from []sto.Blob, n int) []sto.Blob {
+			rng.Shuffle(len(from), func(i, j int) { from[i], from[j] = from[j], from[i] })
+			if len(from) > n {
+				from = from[:n]
 			}
+			return from
 		}
-	}
-	ck3 := s.checker(inst.s, present3, unc3, removed3)
-	s.clientAudit(ck3, rng, st.wholeRows)
-	for ref := range tolerated {
-		if _, p := ck3.Present[ref]; p && !ck3.Uncertain[ref] {
-			r.Count("tolerated_resurrections", 1)
+		loose = pick(loose, 2)
+		if zrefs := lw.largeRefs(); len(zrefs) > 0 && rng.Intn(3) == 0 {
+			// every blob that one zip contains
+			zi := s.zipOf(zrefs[rng.Intn(len(zrefs))])
+			var all []sto.Blob
+			for _, b := range packed {
+				if zi.Contained[b.Ref] {
+					all = append(all, b)
+				}
+			}
+			if len(all) > 0 && len(all) == len(zi.Contained) {
+				if rng.Intn(2) == 0 {
+					// ... but one, which must stay served
+					all = all[:len(all)-1]
+					r.Note("removes", "all-but-one-blob-of-a-zip")
+				} else {
+					r.Note("removes", "all-blobs-of-a-zip")
+				}
+			}
+			packed = all
 		} else {
-			r.Count("removed_packed_stays_removed", 1)
+			packed = pick(packed, 3)
+		}
+		inZip := map[blob.Ref]bool{}
+		if len(loose) > 0 {
+			ck.Remove(loose)
+			for _, b := range loose {
+				removed[b.Ref] = true
+			}
+			r.Note("removes", "loose")
+		}
+		if len(packed) > 0 {
+			ck.Remove(packed)
+			for _, b := range packed {
+				removed[b.Ref] = true
+				inZip[b.Ref] = true
+			}
+			r.Note("removes", "packed")
+		}
+		served2 := s.clientAudit(ck, rng, st.wholeRows)
+		inst.close()
+		if ck.Dead {
+			return
+		}
+
+		// stage 3: another restart in the same mode
+		s.Stage = "re-restart"
+		inst = c.reopen(s, lw)
+		if inst == nil {
+			return
+		}
+		present3, unc3 := copyPresent(ck.Present), copySet(ck.Uncertain)
+		removed3 = copySet(removed)
+		tolerated := map[blob.Ref]bool{}
+		if recovering {
+			for ref := range liveResurrect {
+				if _, p := present3[ref]; !p {
+					unc3[ref] = true
+					delete(removed3, ref)
+				}
+			}
+			// removals are not recorded in the zips: a recovery may bring removed packed blobs back
+			for ref := range inZip {
+				if _, p := present3[ref]; !p {
+					unc3[ref] = true
+					tolerated[ref] = true
+					delete(removed3, ref)
+				}
+			}
+		}
+		ck3 = s.checker(inst.s, present3, unc3, removed3)
+		// whole files served before the restart are served after it
+		must3 := copySet(st.wholeRows)
+		for ref := range served2 {
+			must3[ref] = true
+			r.Count("wholeref_served_before_restart", 1)
+		}
+		s.clientAudit(ck3, rng, must3)
+		for ref := range tolerated {
+			if _, p := ck3.Present[ref]; p && !ck3.Uncertain[ref] {
+				r.Count("tolerated_resurrections", 1)
+			} else {
+				r.Count("removed_packed_stays_removed", 1)
+			}
 		}
 	}
 	if !deep || ck3.Dead {
@@ -903,7 +981,10 @@ func (c *caseCtx) auditState(st *stateEntry, variant string, deep bool) {
 	inst.auditing.Store(true)
 	inst.plan.ResetLog()
 	s.zipAudit()
-	s.clientAudit(ck3, rng, st.wholeRows)
+	served4 := s.clientAudit(ck3, rng, st.wholeRows)
+	if variant == "none" && !st.Derived && !ck3.Dead {
+		c.addDerived(st, s, lw, ck3, removed3, served4)
+	}
 	inst.close()
 	if ck3.Dead {
 		return
@@ -917,9 +998,104 @@ func (c *caseCtx) auditState(st *stateEntry, variant string, deep bool) {
 	}
 	ck5 := s.checker(inst.s, copyPresent(ck3.Present), copySet(ck3.Uncertain), removed3)
 	s.zipAudit()
-	s.clientAudit(ck5, rng, st.wholeRows)
+	must5 := copySet(st.wholeRows)
+	for ref := range served4 {
+		must5[ref] = true
+		r.Count("wholeref_served_before_restart", 1)
+	}
+	s.clientAudit(ck5, rng, must5)
 	inst.close()
 	r.Count("full_stage_walks", 1)
+}
+
+// addDerived records the durable state under lw (reached from the crash state parent by the
+// walk in mode none up to the re-upload) as a state of its own: in the recovery phases it is
+// restarted under fast/full recovery and with the meta index wiped.  Whole files that the
+// store served just now must be served after those recoveries.
+func (c *caseCtx) addDerived(parent *stateEntry, s *site, lw *lower, ck *sto.Checker, removed map[blob.Ref]bool, served map[blob.Ref]bool) {
+	sn, err := lw.snap(c.w, &c.zp)
+	if err != nil {
+		c.r.Inconclusive(fmt.Sprintf("%s: snapshot of the resumed state: %v", c.w.Spec.ID, err))
+		return
+	}
+	var present, unc, rem []int
+	for i, b := range c.w.Universe {
+		_, p := ck.Present[b.Ref]
+		switch {
+		case ck.Uncertain[b.Ref]:
+			unc = append(unc, i)
+		case p:
+			present = append(present, i)
+		case removed[b.Ref]:
+			rem = append(rem, i)
+		}
+	}
+	perPart := map[string]int{}
+	dup := false
+	for _, zr := range sn.Large {
+		if zi := s.zipOf(zr); zi.parsed {
+			k := fmt.Sprintf("%v:%d", zi.Whole, zi.Part)
+			if perPart[k]++; perPart[k] > 1 {
+				dup = true
+			}
+		}
+	}
+	wholes := sortedRefs(served)
+	key := fmt.Sprintf("%s|%v|%v|%v|%v", sn.key, present, unc, rem, wholes)
+	c.mu.Lock()
+	defer c.mu.Unlock()
+	if c.derivedM == nil {
+		c.derivedM = map[string]*stateEntry{}
+	}
+	c.r.Count("resumed_states_seen", 1)
+	if old := c.derivedM[key]; old != nil && old.ks[0] <= parent.ks[0] {
+		return // several crash states lead here: the one with the smallest crash point names it
+	}
+	c.derivedM[key] = &stateEntry{sn: sn, present: present, unc: unc, removed: rem, nAcked: parent.nAcked, ks: []int64{parent.ks[0]},
+		Phase: "resumed:" + parent.Phase, From: parent.Phase, wholeRows: copySet(served), Derived: true, DupZips: dup, key: key}
+}
+
+// selectDerived picks the derived states that the recovery phases restart: those with
+// duplicate zips first, then a few others, by crash point.
+func (c *caseCtx) selectDerived(nDup, nOther int) {
+	var all []*stateEntry
+	for _, st := range c.derivedM {
+		all = append(all, st)
+	}
+	sort.Slice(all, func(i, j int) bool {
+		if all[i].ks[0] != all[j].ks[0] {
+			return all[i].ks[0] < all[j].ks[0]
+		}
+		return all[i].key < all[j].key
+	})
+	c.r.Count("derived_states_distinct", len(all))
+	// spread over the list: first, last, then the middle ones
+	pick := func(from []*stateEntry, n int) []*stateEntry {
+		if len(from) <= n {
+			return from
+		}
+		var out []*stateEntry
+		for i := 0; i < n; i++ {
+			out = append(out, from[i*(len(from)-1)/max(n-1, 1)])
+		}
+		return out
+	}
+	var dups, others []*stateEntry
+	for _, st := range all {
+		if st.DupZips {
+			dups = append(dups, st)
+		} else {
+			others = append(others, st)
+		}
+	}
+	c.r.Count("derived_states_with_duplicate_zips", len(dups))
+	if debugLog {
+		for _, st := range all {
+			fmt.Printf("DEBUG %s derived k=%d from=%s dup=%v zips=%d small=%d\n", c.w.Spec.ID, st.ks[0], st.From, st.DupZips, len(st.sn.Large), len(st.sn.Small))
+		}
+	}
+	c.derived = append(pick(dups, nDup), pick(others, nOther)...)
+	c.derivedM = nil
 }
 
 // ------------------------------------------------------------------ cases
@@ -1105,6 +1281,46 @@ func genCases(r *ev.Run) []caseSpec {
 	return out
 }
 
+// genCasesR4 lists the round-4 cases.  They draw from a PRNG of their own and are numbered
+// apart (g..), so that the cases of genCases keep their ids and seeds.
+func genCasesR4(r *ev.Run) []caseSpec {
+	rng := r.Rand("cases-r4")
+	var out []caseSpec
+	id := 0
+	add := func(class string, maxZip int, order string, files ...fileSpec) *caseSpec {
+		id++
+		out = append(out, caseSpec{ID: fmt.Sprintf("g%02d-%s", id, class), Class: class, Files: files, MaxZip: maxZip,
+			Order: order, Loose: 2, Seed: rng.Int63()})
+		return &out[len(out)-1]
+	}
+	orders := []string{"schema-last", "schema-first", "schema-middle"}
+	kib := 1 << 10
+	// hand-written file schemas: a part that covers only the first bytes of the blob it names
+	// (offset 0), or one blob named by two parts with different sizes.  Whatever the packer
+	// decides to do with such a file, the blobs keep their bytes and sizes.
+	shapes := []string{"short-mid", "short-first", "short-last", "short-by-one", "short-twice", "two-sizes-short-first", "two-sizes-full-first"}
+	// quick: one short part in a file that fits one zip; one in the second zip of two (the first
+	// zip is stored before the packer meets the short part); one blob with two part sizes
+	add("short-part", 0, "schema-last", fileSpec{Name: "short.bin", Size: 600*kib + rng.Intn(300*kib), Content: "parts:" + shapes[rng.Intn(4)]})
+	add("short-part", 0, "schema-last", fileSpec{Name: "short-second-zip.bin", Size: 900*kib + rng.Intn(300*kib), Content: "parts:" + []string{"short-last", "short-twice"}[rng.Intn(2)]})
+	out[len(out)-1].MaxZipPerMille = 560
+	add("short-part", 0, orders[rng.Intn(3)], fileSpec{Name: "two-sizes.bin", Size: 600*kib + rng.Intn(300*kib), Content: "parts:" + shapes[5+rng.Intn(2)]})
+	if !r.Thorough() {
+		return out
+	}
+	for i, sh := range shapes {
+		add("short-part", 0, orders[i%3], fileSpec{Name: fmt.Sprintf("sp%d.bin", i), Size: 560*kib + rng.Intn(600*kib), Content: "parts:" + sh})
+		add("short-part", 0, orders[(i+1)%3], fileSpec{Name: fmt.Sprintf("sp%d-multi.bin", i), Size: 900*kib + rng.Intn(600*kib), Content: "parts:" + sh})
+		out[len(out)-1].MaxZipPerMille = []int{560, 420, 700}[i%3]
+	}
+	// a short-part file next to a packed file that shares its ordinary chunks is not possible
+	// with generated contents; next to an unrelated packed file it is
+	add("short-part", 0, "schema-last",
+		fileSpec{Name: "plain.bin", Size: 560*kib + rng.Intn(100*kib), Content: "random"},
+		fileSpec{Name: "short-next-to-plain.bin", Size: 600*kib + rng.Intn(200*kib), Content: "parts:" + shapes[rng.Intn(len(shapes))]})
+	return out
+}
+
 // ------------------------------------------------------------------ run
 
 func run(r *ev.Run) {
@@ -1128,7 +1344,7 @@ func run(r *ev.Run) {
 	r.Assume("files of tens of MiB (production zip limit): crash points are the writes of the pack only, live audits after those writes only, the range-fetch grid covers a seeded sample of 48 blobs, and only the completely packed state goes through the remove and re-restart stages")
 	r.Assume("crash points with identical durable state and acknowledged set (e.g. consecutive reads) are restarted once")
 
-	specs := genCases(r)
+	specs := append(genCases(r), genCasesR4(r)...)
 	var cases []*caseCtx
 	var cmu sync.Mutex
 	t0 := time.Now()
@@ -1148,8 +1364,8 @@ func run(r *ev.Run) {
 				return
 			}
 			c := &caseCtx{r: r, w: w, limit: blobSizeLimit, states: map[string]*stateEntry{}}
-			if cs.MaxZip > 0 {
-				c.limit = cs.MaxZip
+			if w.Spec.MaxZip > 0 {
+				c.limit = w.Spec.MaxZip
 			}
 			c.zc.limit = c.limit
 			if cs.TruncSearch != "" {
@@ -1213,11 +1429,47 @@ func run(r *ev.Run) {
 					}
 					// the re-upload + third restart: every state with zips; every second state without
 					deep := packedState || si%2 == 0
-					p.Go(func() { c.auditState(st, v, deep) })
+					p.Go(func() { c.auditState(st, v, deep, false) })
+					if v == "none" && packedState && c.w.sameContentFiles() && len(st.wholeRows) == 0 {
+						// an interrupted pack of a content that the client also uploads under
+						// another name: carry straight on (the second name packs the content again)
+						p.Go(func() { c.auditState(st, v, true, true) })
+					}
+				}
+			}
+		}
+		if mp.mode != blobpacked.NoRecovery {
+			// the states reached by restart without recovery + re-upload, now under recovery
+			for _, c := range cases {
+				for _, st := range c.derived {
+					for _, v := range mp.variants {
+						c, st, v := c, st, v
+						p.Go(func() { c.auditState(st, v, r.Thorough() && st.DupZips, false) })
+					}
 				}
 			}
 		}
 		p.Wait()
+		if mp.mode == blobpacked.NoRecovery {
+			nd := 0
+			for _, c := range cases {
+				if r.Thorough() {
+					c.selectDerived(6, 3)
+				} else {
+					c.selectDerived(2, 1)
+				}
+				nd += len(c.derived)
+				for _, st := range c.derived {
+					if st.DupZips {
+						r.Note("derived_state", "duplicate-zips")
+						r.Note("duplicate_zips_after", st.From)
+					} else {
+						r.Note("derived_state", "other")
+					}
+				}
+			}
+			r.Count("derived_states", nd)
+		}
 		fmt.Printf("PROGRESS property=C04 recovery phase %v done, %.1fs\n", mp.variants, time.Since(t0).Seconds())
 	}
 	blobpacked.SetRecovery(blobpacked.NoRecovery)
